@@ -45,6 +45,7 @@ def parseLine : List String → Option Line
     some { ops := [.delete ss lo hi], kind := "d" }
   | ["snap"] => some { ops := [.snapBegin, .snapTo .idle], kind := "snap" }
   | ["sb"] => some { ops := [.snapBegin], kind := "sb" }
+  | ["snapfail"] => some { ops := [.snapFail], kind := "sb" }
   | ["sw"] => some { ops := [.snapTo .written], kind := "s" }
   | ["sr"] => some { ops := [.snapTo .replaced], kind := "s" }
   | ["sc"] => some { ops := [.snapTo .cleared], kind := "s" }
@@ -77,6 +78,8 @@ def render (kind : String) : Obs → String
   | .badGroup => "err:group"
   | .rows r => showRows r
   | .nfiles n => if kind = "c" then s!"ok {n}" else toString n
+  | .failed => "err:snapshot-failed"
+  | .busy => "busy"
   | .err => "err"
 
 def parseRow (s : String) : Option Pt :=
@@ -101,6 +104,8 @@ def parseAns (kind : String) (a : String) : Obs :=
   else if a = "err:inprogress" then .inProgress
   else if a = "blocked" then .blocked
   else if a = "err:group" then .badGroup
+  else if a = "err:snapshot-failed" then .failed
+  else if a = "busy" then .busy
   else .err
 
 /-- run a line on the model: new state and the answer -/
